@@ -76,6 +76,8 @@ func checkC08(p *Prog, r *Report) {
 	c08Reduction(p, r, x)
 	c08Support(p, r, x)
 	c08Clip(p, r, "C08.R5")
+	// uptake of a day without demand must be zero, not yesterday's (shared with C01.R5)
+	dayHandover(p, r, "C08.R6")
 }
 
 func c08Caps(p *Prog, r *Report, x *Exec) {
